@@ -141,7 +141,12 @@ fn same_name_chain(name: &str, depth: usize) -> Vec<Node> {
     vec![cur]
 }
 const HUGE_NAMES: [&str; 12] = ["value", "Value", "value_1", "Value_1", "unit", "unit_attr", "VALUE", "value-1", "text", "text_content", "type", "Type"];
-const LONG_NAMES: [&str; 4] = [
+const LONG_NAMES: [&str; 9] = [
+    "VehicleRentalAvailabilityRequestSummaryTotal",
+    "VehicleRentalAvailabilityRequestSummaryRate",
+    "VehicleRentalAvailabilityRequestSummaryFee",
+    "an_element_name_of_more_than_one_hundred_and_twenty_eight_characters_which_differs_from_its_sibling_only_in_the_very_last_character_a",
+    "an_element_name_of_more_than_one_hundred_and_twenty_eight_characters_which_differs_from_its_sibling_only_in_the_very_last_character_b",
     "transport_schedule_configuration_entry",
     "regional-transport-schedule-configuration",
     "TransportScheduleConfigurationEntryWithAnExceptionallyLongDescriptiveElementNameOfOverEightyCharacters",
@@ -286,7 +291,7 @@ pub fn run_docprop(ctx: &mut Ctx, p: DocProp) {
             39 => {
                 kind = "random-long-names";
                 g.names = LONG_NAMES.iter().map(|x| x.to_string()).collect();
-                g.attrs = vec!["an_attribute_name_that_is_also_rather_long_for_an_attribute_0123456789".to_string(), "k".to_string()];
+                g.attrs = ["an_attribute_name_that_is_also_rather_long_for_an_attribute_0123456789", "k", "RentalPaymentPreferenceGuaranteeType", "RentalPaymentPreferenceGuaranteeCode", "RentalPaymentPreferenceGuaranteeAmount"].iter().map(|x| x.to_string()).collect();
                 g.max_depth = 4;
                 g.max_kids = 3;
                 g.max_nodes = 14;
@@ -302,13 +307,13 @@ pub fn run_docprop(ctx: &mut Ctx, p: DocProp) {
         let root = match kind {
             "random-wide" => "w0",
             "random-huge" => "value",
-            "random-long-names" => LONG_NAMES[0],
+            "random-long-names" => LONG_NAMES[4],
             _ => *rng.pick(&names[..names.len().min(2)]),
         };
         let mut docs: Vec<Vec<Node>> = (0..k).map(|_| gen_doc(&mut rng, &g, root)).collect();
         // chains hundreds of levels deep are expensive to render in the model: only the checks
         // whose property is about the inferred tree get them
-        let deep_ok = matches!(ctx.prop.as_str(), "C01" | "C03" | "C06");
+        let deep_ok = matches!(ctx.prop.as_str(), "C01" | "C03" | "C06" | "C11");
         match i % 400 {
             51 | 251 if deep_ok => {
                 kind = "fixed-very-deep";
@@ -439,14 +444,20 @@ fn rand_string(rng: &mut Rng, alphabet: &[char], max: usize) -> String {
 }
 fn rand_ident(rng: &mut Rng) -> String {
     if rng.chance(1, 2) {
-        rng.pick(&["$text", "$value", "text", "#text", "body", "", "@", "attr_", "_", "x-", " ", "$", "Text", "text_content"]).to_string()
+        // incl. strings that are themselves the beginning of attribute names of the pools
+        rng.pick(&["$text", "$value", "text", "#text", "body", "", "@", "attr_", "_", "x-", " ", "$", "Text", "text_content", "a", "x", "k", "id", "i", "xml", "xmlns", "p:", "a-"]).to_string()
     } else {
         rand_string(rng, &['$', '@', '#', 't', 'e', 'x', '_', '-', ' ', ':', 'T', '1', 'я'], 6)
     }
 }
 fn rand_derive(rng: &mut Rng) -> String {
     if rng.chance(1, 2) {
-        rng.pick(&["Serialize, Deserialize", "", "Debug, Clone", "Debug", "serde::Deserialize, PartialEq", "A(B), C", " ", " Debug", "Debug ", "\tClone", "  ", "Debug,Clone , "]).to_string()
+        rng.pick(&[
+            "Serialize, Deserialize", "", "Debug, Clone", "Debug", "serde::Deserialize, PartialEq", "A(B), C", " ", " Debug", "Debug ", "\tClone", "  ", "Debug,Clone , ",
+            // long lists (anything that wraps, truncates or reformats above a width)
+            "Debug, Clone, PartialEq, Eq, Hash, PartialOrd, Ord, Default, serde::Serialize, serde::Deserialize",
+            "Debug, Clone, PartialEq, Eq, Hash, PartialOrd, Ord, Default, serde::Serialize, serde::Deserialize, schemars::JsonSchema, derive_more::Display, derive_more::From, derive_more::Into, derive_builder::Builder, validator::Validate, utoipa::ToSchema, ts_rs::TS, strum::EnumString, strum::Display,,  Copy",
+        ]).to_string()
     } else {
         rand_string(rng, &['D', 'e', 'b', 'u', 'g', ',', ' ', ' ', '(', ')', ':', '_', '\t', 'я', '<', '>', '#', '[', ']'], 12)
     }
